@@ -451,6 +451,22 @@ func (e *SpecEnv) call(x *SCall) Value {
 			}
 			_, dom, _ := e.vc.mapParts(e.st, m, v.T)
 			return Value{T: dom, Ty: types.NewMap(m.Key(), types.Typ[types.Bool])}
+		case "elems":
+			v := e.eval(x.Args[0])
+			sl, ok := v.Ty.Underlying().(*types.Slice)
+			if !ok {
+				e.fail("elems of non-slice")
+			}
+			n := e.vc.slLen(v.T)
+			if n.C == nil || n.C.Int64() > 16 {
+				e.fail("elems needs a slice of constant length <= 16")
+			}
+			ss := arraySort(e.vc.sortOf(sl.Elem()), "Bool")
+			set := Term{S: fmt.Sprintf("((as const %s) false)", ss), Sort: ss}
+			for i := int64(0); i < n.C.Int64(); i++ {
+				set = tStore(set, e.vc.sliceElem(e.st, v.T, sl.Elem(), e.vc.idxLit(i)), tTrue)
+			}
+			return Value{T: set, Ty: types.NewMap(sl.Elem(), types.Typ[types.Bool])}
 		case "visited":
 			if e.visited == nil {
 				e.fail("visited() outside a map range loop")
